@@ -152,6 +152,8 @@ type World struct {
 	Switches  map[string]int // "siteA>siteB" pairs of consecutive releases (interleaving measure)
 	lastSite  string
 	StepCapHit bool
+	TraceOn    bool
+	Trace      []string
 	mutexWaiters int32
 
 	Net *Net
@@ -353,6 +355,13 @@ func (w *World) Run(until time.Duration) {
 				w.Switches[w.lastSite+">"+p.site]++
 			}
 			w.lastSite = p.site
+			if w.TraceOn {
+				var l []string
+				for _, q := range w.parked {
+					l = append(l, q.site)
+				}
+				w.Trace = append(w.Trace, fmt.Sprintf("%d pick=%s rest=%v", w.Now(), p.site, l))
+			}
 			w.mu.Unlock()
 			w.inDriver.Store(false)
 			close(p.ch)
